@@ -390,7 +390,8 @@ class DecimalFieldFormat(AbstractFieldFormat):
             self.decimal_separator = "."
             self.thousands_separator = ""
         self.valid_range = ranges.DecimalRange(rule, ranges.DEFAULT_DECIMAL_RANGE_TEXT)
-        self._length = ranges.DecimalRange(length_text)
+        # NOTE: The length counts characters, so unlike the rule it is a range of integer numbers.
+        self._length = ranges.Range(length_text)
 
         self._precision = self.valid_range.precision
         self._scale = self.valid_range.scale
